@@ -270,4 +270,57 @@ MUTANTS = [
          old='''            if let Some(PluginOutput::Deny(error)) = plugin_output {
                 self.forget_buffered_prepared_statements();''',
          new='''            if let Some(PluginOutput::Deny(error)) = plugin_output {'''),
+    # ------------------------------------------------------------------ C10
+    dict(id="c10-no-release", prop="C10", file="src/client.rs", expect="C10-R3",
+         what="release() dropped from the normal release path",
+         old='''            self.connected_to_server = false;
+
+            self.release();
+            self.stats.idle();''', new='''            self.connected_to_server = false;
+
+            self.stats.idle();'''),
+    dict(id="c10-cancel-with-client-key", prop="C10", file="src/client.rs", expect="C10-R4",
+         what="cancel sent with the client's key instead of the server's",
+         old='''            return Server::cancel(&address, port, process_id, secret_key).await;''',
+         new='''            let _ = (process_id, secret_key);
+            return Server::cancel(&address, port, self.process_id, self.secret_key).await;'''),
+    dict(id="c10-insert-in-release", prop="C10", file="src/client.rs", expect="C10-R1",
+         what="a second writer of the cancel map",
+         old='''        guard.remove(&(self.process_id, self.secret_key));
+    }
+
+    async fn send_and_receive_loop(''',
+         new='''        guard.remove(&(self.process_id, self.secret_key));
+        guard.insert((self.process_id, 0), (0, 0, String::new(), 0));
+    }
+
+    async fn send_and_receive_loop('''),
+    dict(id="c10-claim-stores-client-pid", prop="C10", file="src/server.rs", expect="C10-R2",
+         what="claim stores the client's pid as the server pid",
+         old='''            (
+                self.process_id,
+                self.secret_key,
+                self.address.host.clone(),''',
+         new='''            (
+                process_id,
+                self.secret_key,
+                self.address.host.clone(),'''),
+    dict(id="c10-cancel-on-miss", prop="C10", file="src/client.rs", expect="C10-R4",
+         what="unknown key still contacts a server",
+         old='''                    None => return Ok(()),
+                }
+            };''',
+         new='''                    None => (0, 0, String::from("127.0.0.1"), 5432u16),
+                }
+            };'''),
+    dict(id="c10-key-by-pid-only", prop="C10", file="src/client.rs", expect="C10-R",
+         what="Drop removes a different key",
+         old='''        let mut guard = self.client_server_map.lock();
+        guard.remove(&(self.process_id, self.secret_key));
+
+        // Dirty shutdown''',
+         new='''        let mut guard = self.client_server_map.lock();
+        guard.remove(&(self.process_id, 0));
+
+        // Dirty shutdown'''),
 ]
